@@ -777,6 +777,8 @@ def run(ctx):
     stats["fieldnorm_ids_covered"] = len(stats["fnids"])
     stats["fnids"] = sorted(stats["fnids"])
     ctx.cov["observations"] = stats
+    if ctx.violations:        # the coverage gates below are about clean runs
+        return finish_samples(ctx, ev2)
     if stats["topdocs_scores_compared"] == 0 or stats["explain_compared"] == 0 or stats["hits_multi_clause"] == 0:
         raise vlib.ToolError("an observation path was never compared (TopDocs / explain / several clauses)")
     if not stats["big_dismax_hits_beyond_first_window"] or not stats["big_segments_over_4096"]:
@@ -785,7 +787,11 @@ def run(ctx):
     if not all(by_n.get(k) for k in ("2", "3", "4")) or not stats["merges_after_deletes"] or not stats["merges_leaving_other_segments"] \
             or not stats["merges_exact_T_with_non_table_lengths"]:
         raise vlib.ToolError(f"merge coverage incomplete: {by_n}, after deletes {stats['merges_after_deletes']}")
-    # a sample of what was executed and judged
+    finish_samples(ctx, ev2)
+
+
+def finish_samples(ctx, ev2):
+    """a sample of what was executed and judged"""
     _, cases = split_cases(norm_events(ev2))
     for c in cases:
         q = next((e for e in c if e["ev"] == "query" and e["runs"][0]["hits"] and leaves(e["runs"][0]["hits"][0]["term"]) > 1), None)
